@@ -300,6 +300,24 @@ def _gen_linalg(rng, tier, fam, solve):
         dens = rng.choice([0.1, 0.2, 0.35, 0.6])
         off = [(r, c) for r in range(n) for c in range(n) if r != c and rng.random() < dens]
         out.append(_lu_line(rng, fam, rng.randrange(4), n, off, solve))
+    # wider groups (5, 6, 8 cells): whole groups, partial groups of more than four cells, several groups
+    for L in (5, 6, 8):
+        for alg in range(4):
+            for nb in (L, L - 2, 2 * L - 1, L + 6):
+                n = rng.choice([3, 4, 5])
+                off = [(r, c) for r in range(n) for c in range(n) if r != c and rng.random() < 0.4]
+                line = _lu_line(rng, fam, alg, n, off, solve).split()
+                # _lu_line drew its own L and block count: generate the values for the wanted ones instead
+                csc = line[2]
+                pairs = sorted(set([(i, i) for i in range(n)] + list(off)))
+                vals = [rng.randrange(1, P31) for _ in range(nb * len(pairs))]
+                t = [alg, csc, L, nb, n, len(pairs)]
+                for r, c in pairs:
+                    t += [r, c]
+                t += vals
+                if solve:
+                    t += [rng.randrange(0, P31) for _ in range(nb * n)]
+                out.append(fam + " " + " ".join(map(str, t)))
     return out
 
 
